@@ -18,7 +18,7 @@ from vrf.oracle import validate
 from vrf.symx import sym
 
 B, Q = tys.Bool, tys.Qubit
-N_STEPS_KINDS = 15
+N_STEPS_KINDS = 16
 
 
 @native
@@ -131,10 +131,34 @@ def step(f, m, decl, g, kind, tag, bools, qubit, nodes):
             outer.set_outputs(cond[0])
         qubit = outer[0]
         nodes.append(outer.parent_node)
-    else:              # (kind 12) explicit state order between two earlier sibling nodes
+    elif kind == 15:   # CFG whose entry branches two ways; the branches meet again in a merge block or at the exit (a block with two predecessors)
+        with f.add_cfg(_pick(tag + ".w", bools), qubit) as cfg:
+            with cfg.add_entry() as entry:
+                be, qe = entry.inputs()
+                entry.set_block_outputs(be, qe)
+            with cfg.add_successor(entry[0]) as left:
+                (ql,) = left.inputs()
+                left.set_single_succ_outputs(ql)
+            with cfg.add_successor(entry[1]) as right:
+                (qr,) = right.inputs()
+                x = right.add_op(programs.cust("right", [Q], [Q]), qr)
+                right.set_single_succ_outputs(x[0])
+            if sym.concretize(sym.bool(tag + ".merge_block")):
+                with cfg.add_successor(left[0]) as merge:
+                    (qm,) = merge.inputs()
+                    merge.set_single_succ_outputs(qm)
+                cfg.branch(right[0], merge)
+                cfg.branch_exit(merge[0])
+            else:
+                cfg.branch_exit(left[0])
+                cfg.branch_exit(right[0])
+        qubit = cfg[0]
+        nodes.append(cfg.parent_node)
+    else:              # (kind 12) explicit state order between two earlier sibling nodes (any earlier -> any later one)
         if len(nodes) >= 2:
-            i = sym.concretize(sym.int(tag + ".from", 0, len(nodes) - 2))
-            f.add_state_order(nodes[i], nodes[-1])
+            j = sym.concretize(sym.int(tag + ".to", 1, len(nodes) - 1))
+            i = sym.concretize(sym.int(tag + ".from", 0, j - 1))
+            f.add_state_order(nodes[i], nodes[j])
     return qubit
 
 
@@ -143,9 +167,9 @@ def h_is_bool(f, n):
 
 
 @lemma("C01", params=[(k,) for k in range(N_STEPS_KINDS)],
-       bounds="module programs of 2 (quick) / 3 (thorough) builder steps inside a function over 15 step kinds (custom op with unused output, linear "
+       bounds="module programs of 2 (quick) / 3 (thorough) builder steps inside a function over 16 step kinds (custom op with unused output, linear "
               "threading, tuple ops, Tag, constants, call, load_function + CallIndirect, nested DFG with an Ext wire, conditional, if/else, tail loop, "
-              "CFG with a Dom wire, a wire crossing two region boundaries, a row-polymorphic call, explicit state order); wires chosen by the solver; one task per first step; linear value consumed exactly once",
+              "CFG with a Dom wire, CFG with a two-way branch that merges again, a wire crossing two region boundaries, a row-polymorphic call, explicit state order) plus an optional final state-order edge between any two of the nodes created; wires chosen by the solver; one task per first step; linear value consumed exactly once",
        outside="longer programs; extension-delta / type-argument rules (not listed by the property)",
        opts={"max_paths": 200000, "timeout_s": 2500})
 def builder_programs_are_valid(first):
@@ -160,13 +184,15 @@ def builder_programs_are_valid(first):
     for s in range(1, P(2, 3)):
         kind = sym.concretize(sym.int(f"s{s}.kind", 0, N_STEPS_KINDS - 1))
         q = step(f, m, decl, g, kind, f"s{s}", bools, q, nodes)
+    if len(nodes) >= 2 and sym.concretize(sym.bool("final_order_edge")):
+        step(f, m, decl, g, 12, "ord", bools, q, nodes)   # a state-order edge between ANY earlier and ANY later node of the program
     f.set_outputs(q, bools[-1])
     errs = _judge(m.hugr)
     sym.check("serialized_program_is_valid", errs == [], errs[:4])
 
 
 @lemma("C01", params=lambda: [(i,) for i in range(len(programs.MODULES))],
-       bounds="the 7 program templates (incl. tracked circuit inserted into a function, unicode names, repeated calls / loads)")
+       bounds="the 8 program templates (incl. unusual attribute values, merging CFG branches, tracked circuit inserted into a function, unicode names, repeated calls / loads)")
 def template_programs_are_valid(k):
     h = programs.MODULES[k]().hugr
     errs = _judge(h)
